@@ -10,6 +10,7 @@ package mkvs
 //@   note an overlay is a new tree object layered over inner; nothing is written to inner until Commit
 
 //@ import "context"
+//@ import "github.com/oasisprotocol/oasis-core/go/storage/mkvs/syncer"
 
 //@ func NewWithRoot
 //@   trusted
@@ -207,3 +208,22 @@ package mkvs
 //@   precall mkvs\.tree\)\.Remove$ :: entry.Value == nil && argIs(1, entry.Key)
 //@   precall mkvs\.tree\)\.Insert$ :: entry.Value != nil && argIs(1, entry.Key) && argIs(2, entry.Value)
 //@   note an entry with a nil value is applied as a removal of exactly its key, any other entry as an insertion of exactly its key and value; nothing else is written by the loop
+
+//@ ghost func ItErrNil(it Iterator) bool { return ufr[error]("iterErr", it, GIterPos[it]) == nil }
+
+//@ func Iterator.Err
+//@   iface (self Iterator) (result error)
+//@   modifies nothing
+//@   ensures (result == nil) == ItErrNil(self)
+
+//@ func Iterator.GetProof
+//@   iface (self Iterator) (result *syncer.Proof, err error)
+//@   modifies nothing
+
+//@ func Iterator.GetProofBuilder
+//@   iface (self Iterator) (result *syncer.ProofBuilder)
+//@   modifies nothing
+
+//@ func Iterator.Close
+//@   iface (self Iterator)
+//@   modifies nothing
